@@ -260,6 +260,12 @@ func gen(r *sim.Rng, tier string) *sim.Case {
 		p["slen"] = r.Range(140, 700)
 		p["alen"] = r.Range(100, 700)
 	}
+	if r.Pct(4) {
+		// a long secret (a key file, a generated token) with a length near a round number, where
+		// a fixed-size scratch buffer for the key derivation would end: 2^k and k*1000, -48..+16
+		base := []int{256, 512, 1000, 1024, 2000, 2048, 4096, 8192, 16384}[r.N(9)]
+		p["slen"] = base - 48 + r.N(65)
+	}
 	p["variant"] = r.N(8) // bit0: plaintext as string, bit1: secret as string, bit2: aad as string
 	p["emode"] = r.Pick(6, 1, 1)
 	p["echunk"] = []int{0, 0, 1, 3, 7}[r.N(5)]
